@@ -146,6 +146,34 @@ def gen_ff(rng, nblocks=None, nlinks=None, uniform_nrexcl=None):
     return {'blocks': blocks, 'links': links}
 
 
+def gen_arrangement_ff(rng):
+    """two or three one-bead residue types, a generic bond link, and links over three consecutive residues whose atoms
+    carry their own residue name (no link-level resname): one angle per arrangement of residue names (A-A-B, A-B-A, ...).
+    Links of different arrangements never define the same interaction."""
+    names = ['RA', 'RB', 'RC'][:rng.randint(2, 3)]
+    blocks = [{'name': n, 'nrexcl': 1, 'inters': {},
+               'atoms': [{'name': 'BB', 'atype': rng.choice(ATYPES), 'cg': 1, 'charge': '0.0', 'mass': '72.0'}]} for n in names]
+    links = [{'resnames': names, 'atoms_attr': [], 'edges': [], 'meta': {},
+              'inters': {'bonds': [{'atoms': [('', 'BB'), ('+', 'BB')], 'params': ['1', '0.350', '1250.000'], 'meta': {}}]}}]
+    arrangements = rng.sample([(a, b, c) for a in names for b in names for c in names], rng.randint(2, 5))
+    for arr in arrangements:
+        links.append({'resnames': None, 'edges': [], 'meta': {},
+                      'atoms_attr': [[[p, 'BB'], {'resname': r}] for p, r in zip(('', '+', '++'), arr)],
+                      'inters': {'angles': [{'atoms': [('', 'BB'), ('+', 'BB'), ('++', 'BB')],
+                                             'params': ['2', f'{rng.uniform(90, 180):.3f}', f'{rng.uniform(5, 90):.3f}'], 'meta': {}}]}})
+    return {'blocks': blocks, 'links': links}, names
+
+
+def gen_arrangement_graph(rng, names):
+    nres = rng.randint(3, 8)
+    g = {'nres': nres, 'shape': 'path', 'resnames': [rng.choice(names[:2]) if rng.random() < 0.8 else rng.choice(names) for _ in range(nres)],
+         'edges': [(i, i + 1) for i in range(nres - 1)], 'r0': rng.choice([1, 1, 5]),
+         'keys': list(range(nres)), 'order': list(range(nres)), 'edge_order': list(range(nres - 1)), 'flip': [False] * (nres - 1)}
+    if rng.random() < 0.4:
+        g['resnames'] = [names[i % 2] for i in range(nres)]      # alternating copolymer
+    return g
+
+
 def fmt_meta(meta):
     return (' ' + json.dumps(meta)) if meta else ''
 
@@ -162,7 +190,7 @@ def render_ff(ff):
                 out.append(' '.join(b['atoms'][i]['name'] for i in r['atoms']) + ' ' + ' '.join(r['params']) + fmt_meta(r['meta']))
         out.append('')
     for l in ff['links']:
-        out += ['[ link ]', 'resname "' + '|'.join(l['resnames']) + '"']
+        out += ['[ link ]'] + (['resname "' + '|'.join(l['resnames']) + '"'] if l['resnames'] else [])
         if l['atoms_attr']:
             out.append('[ atoms ]')
             for (p, n), attr in l['atoms_attr']:
